@@ -96,7 +96,30 @@ def _native_fnext_self():
         return "missing 1 required positional argument" in str(e)
 
 
-NATIVE_WITNESSES = {"c07_fnext_self": _native_fnext_self, "c07_upper_tie": _native_upper_tie, "c07_fnext_shared": _native_fnext_shared}
+def _native_other_value():
+    """witness: f(x: Literal[0]) hands the value 1 to call_next; Literal[1] shares its rank: the step must act like the fresh call f(1)"""
+    from typing import Literal
+
+    from ovld import Ovld, call_next  # noqa: F401
+
+    ov = Ovld()
+    src = ("from typing import Literal\nfrom ovld import call_next\n"
+           "def zero(x: Literal[0]):\n    return ['zero', call_next(1)]\n"
+           "def one(x: Literal[1]):\n    return 'one'\n"
+           "def anyint(x: int):\n    return 'int'\n")
+    import linecache
+
+    fn = "<c07-native-other-value>"
+    linecache.cache[fn] = (len(src), None, src.splitlines(True), fn)
+    g = {}
+    exec(compile(src, fn, "exec"), g)
+    for f in (g["zero"], g["one"], g["anyint"]):
+        ov.register(f)
+    return ov.dispatch(0) != ["zero", "one"] and ov.dispatch(1) == "one"
+
+
+NATIVE_WITNESSES = {"c07_fnext_self": _native_fnext_self, "c07_upper_tie": _native_upper_tie, "c07_fnext_shared": _native_fnext_shared,
+                    "c07_other_value": _native_other_value}
 
 
 def make_world(ex, shape, real):
@@ -193,19 +216,25 @@ def make_run_dep(W, shape, known_active=None):
     ms = _DEPMS.get(key)
     if ms is None:
         def body(m, k):
-            return {"ret": f"return ('ret', {m})", "next": "return call_next(x)", "fnext": "return F.next(x)"}[k]
+            return {"ret": f"return ('ret', {m})", "next": "return call_next(x)", "fnext": "return F.next(x)",
+                    "nextother": "return call_next(OTHER) if x is not OTHER else ('ret', 'again')"}[k]
         specs = [dict(pos=[("x", ("Dep", ("K", 0), 3 + i), False)], body=body(i, k)) for i, k in enumerate(kinds)]
         specs.append(dict(pos=[("x", ("K", 0), False)], body=body(D, skind[0])))
         specs.append(dict(pos=[("x", ("obj",), False)], body=body(D + 1, skind[1])))
         ms = _DEPMS[key] = MethodSet(specs)
 
     def run(ctx):
-        hs, LOG, ns = ms.instantiate(W)
+        other = W.K[0]()
+        other.flag, other.flag2 = False, True          # an instance for which only the SECOND dependent method's condition holds
+        hs, LOG, ns = ms.instantiate(W, extra=dict(OTHER=other))
         ov = Ovld()
         for m in range(D + 2):
             ov.register(hs[m], priority=(-1 if m == D + 1 else 0))
         ns["F"] = ov.dispatch
-        flags = [bool(ctx.choose(f"flag{i}", 2)) for i in range(D)]
+        if "nextother" in kinds:
+            flags = [True, False]                       # the first dependent method runs and hands OTHER on
+        else:
+            flags = [bool(ctx.choose(f"flag{i}", 2)) for i in range(D)]
         a = W.K[0]()
         a.flag, a.flag2 = flags[0], (flags[1] if D > 1 else False)
         del LOG[:]
@@ -222,26 +251,38 @@ def make_run_dep(W, shape, known_active=None):
         finally:
             sys.setrecursionlimit(old)
         chain = [e[0] for e in LOG]
-        hold = [i for i in range(D) if flags[i]]
-        if len(hold) >= 2:
-            exp = ([], ("AMB",))
-        else:
-            seq = (hold + [D, D + 1]) if hold else [D, D + 1]
-            ks = list(kinds) + list(skind)
+        ks = list(kinds) + list(skind)
+
+        def walk(seq):
             out, t = [], None
             for m in seq:
                 out.append(m)
                 if ks[m] == "ret":
                     t = ("ret", m)
                     break
-            exp = (out, t if t is not None else ("NOM",))
+            return out, (t if t is not None else ("NOM",))
+        hold = [i for i in range(D) if flags[i]]
+        known = []
+        if "nextother" in kinds:
+            # method 0 is not applicable to OTHER (its condition fails there): the step is a fresh call f(OTHER), which method 1 answers
+            rest, t = walk([1, D, D + 1])
+            exp = ([0] + rest, t)
+            # recorded: continuations are keyed by argument TYPES, so the step goes below method 0's rank and skips its sibling
+            skipped, t2 = walk([D, D + 1])
+            if (chain, term) == ([0] + skipped, t2) and KNOWN_OTHER_VALUE in (known_active if known_active is not None else runner.active_known_ids(PID)):
+                known = [(KNOWN_OTHER_VALUE, True)]
+        elif len(hold) >= 2:
+            exp = ([], ("AMB",))
+        else:
+            exp = walk((hold + [D, D + 1]) if hold else [D, D + 1])
         ok = (chain, term) == (exp[0], exp[1])
         info = dict(family="dependent methods sharing a rank", kinds=kinds, flags=flags, chain=chain[:12], end=list(term), expected=[exp[0], list(exp[1])])
-        return Verdict(ok, (), info, [term[0]], nontrivial=len(chain) >= 2)
+        return Verdict(ok, known, info, [term[0]], nontrivial=len(chain) >= 2)
 
     return run
 
 
+KNOWN_OTHER_VALUE = "C07-call-next-other-value-same-rank"
 _FEWMS = {}
 
 
@@ -506,6 +547,9 @@ def gen_shapes(tier, seed):
         for ks in itertools.product(["next", "ret"], repeat=D_):
             for sk in itertools.product(["next", "ret"], repeat=2):
                 fam_dep.append(dict(n=n, depkinds=list(ks), statics=list(sk)))
+    for k1 in ("ret", "next"):
+        for sk in itertools.product(["next", "ret"], repeat=2):
+            fam_dep.append(dict(n=n, depkinds=["nextother", k1], statics=list(sk)))
     fam_fact = []
     for mt in itertools.product(range(n + 1), repeat=3):
         for ks in itertools.product(["ret", "next", "fnext"], repeat=3):
